@@ -231,8 +231,12 @@ def run_case(c):
             has_forces_in_file = settings["force_sets"] and c["dataset"] != "none"
             has_fc_in_file = ("force_constants:" in text)
             has_nac_in_file = ("born_effective_charge:" in text) and ("dielectric_constant:" in text)
-            ph2 = phonopy.load(fn, is_compact_fc=(c["fc"] == "compact"), symmetrize_fc=False, log_level=0,
-                               produce_fc=(c["dataset"] != "type2"))  # type-2 forces need symfc/ALM (absent here)
+            try:
+                ph2 = phonopy.load(fn, is_compact_fc=(c["fc"] == "compact"), symmetrize_fc=False, log_level=0,
+                                   produce_fc=(c["dataset"] != "type2"))  # type-2 forces need symfc/ALM (absent here)
+            except Exception as e_:
+                viol.append(dict(kind="reload_failed", msg="phonopy.load cannot read the file Phonopy.save wrote for %s: %s: %s" % (c["crystal"]["name"], type(e_).__name__, str(e_)[:200]), calculator=calc))
+                return {"viol": viol, "nontrivial": True, "key": "sl|%s|%s|reload_failed" % (c["crystal"]["name"], calc), "obs": obs}
             feat = dict(calculator=calc, dataset=c["dataset"], fc=c["fc"], nac=c["nac"], xz=c["xz"], decoys=c["decoys"], settings=settings,
                         forces_in_file=has_forces_in_file, fc_in_file=has_fc_in_file)
 
